@@ -159,7 +159,29 @@ def assert_bundle_attr(b: "Bundle", val: Any) -> None:
         raise TypeError(msg)
 
 
-_banned = ["signals", "bundles", "namespace"]
+_banned = [
+    "signals",
+    "bundles",
+    "namespace",
+    "add",
+    "get",
+    "props",
+    "name",
+    "roles",
+    "Roles",
+]
+
+
+def _assert_addable(bundle: "Bundle", val: "BundleAttr", name: Any) -> None:
+    """Raise if `val` cannot be added to `bundle` as `name`. Called before `val` is modified in any way."""
+    if not isinstance(name, str) or not name or name.startswith("_"):
+        msg = f"Invalid name `{name}` for {val} in {bundle}: attribute names are non-empty strings, not starting with `_`"
+        raise RuntimeError(msg)
+    if bundle._elaborated:
+        raise RuntimeError(f"Cannot add {val} to {bundle} after elaboration.")
+    if val.name != name and bundle.namespace.get(val.name, None) is val:
+        msg = f"Cannot add {val} to {bundle} as `{name}`: it already is its attribute `{val.name}`"
+        raise RuntimeError(msg)
 
 
 @attrmagic.init
@@ -221,6 +243,8 @@ class Bundle:
         if (name or val.name) in _banned:
             msg = f"Error attempting to over-write protected attribute {name or val.name} of Bundle {self}"
             raise RuntimeError(msg)
+        # Check that the addition will be accepted, before modifying `val`
+        _assert_addable(self, val, name if name is not None else val.name)
         if name is not None:  # One or the other set - great.
             val.name = name
 
@@ -252,11 +276,11 @@ class Bundle:
             # Bootstrapping phase. Pass along to "regular" setattr.
             return super().__setattr__(key, val)
 
-        if key in _banned:
-            msg = f"Error attempting to over-write protected attribute {key} of Module {self}"
-            raise RuntimeError(msg)
         # Special case(s)
         if key == "name":
+            if val is not None and not isinstance(val, str):
+                msg = f"Invalid name {val} for {self}. (`name` is the Bundle's own name, and cannot hold a member.)"
+                raise TypeError(msg)
             return super().__setattr__(key, val)
         if key == "roles":
             if isinstance(val, EnumMeta):
@@ -269,13 +293,25 @@ class Bundle:
 
             return super().__setattr__(key, val)
 
+        if key in _banned:
+            msg = f"Error attempting to over-write protected attribute {key} of Bundle {self}"
+            raise RuntimeError(msg)
+
         # Check it's a valid attribute-type
         assert_bundle_attr(self, val)
+
+        # Check that the addition will be accepted, before modifying `val`
+        _assert_addable(self, val, key)
 
         # Checks out! Name `val` and add it to our type-based containers.
         val.name = key
         _add(bundle=self, val=val)
         return None
+
+    def __delattr__(self, __name: str) -> None:
+        """Disable attribute deletion, as `Module` does."""
+        msg = f"Cannot delete Bundle attribute {__name} of {self}"
+        raise RuntimeError(msg)
 
     def __getattr__(self, key):
         ns = self.__getattribute__("namespace")
@@ -386,7 +422,7 @@ def bundle(cls: type) -> Bundle:
     # Create the Bundle object
     bundle = Bundle(name=cls.__name__)
 
-    protected_names = ["signals", "bundles"]
+    protected_names = [n for n in _banned if n not in ("roles", "Roles", "name")]
     # Any class-body content that isn't a `ModuleAttr` will be "forgotten" from the `Module` definition.
     # This can nonetheless be handy for defining intermediate values upon which the ultimate Module attributes depend.
     forgetme: List[Any] = list()
@@ -396,6 +432,8 @@ def bundle(cls: type) -> Bundle:
     # Take a lap through the class dictionary, type-check everything and assign relevant attributes to the bundle
     for key, val in cls.__dict__.items():
         if key in protected_names:
+            raise RuntimeError(f"Invalid field name {key} in bundle {cls}")
+        elif key == "name" and is_bundle_attr(val):
             raise RuntimeError(f"Invalid field name {key} in bundle {cls}")
         elif key == "roles" or key == "Roles":
             # Special-case the upper-cased `Roles`, as it'll often be a class-def
